@@ -15,7 +15,7 @@ import (
 
 // condHeaderValues: the H set of C04 for a target whose current tag is cur ("" if none).
 func condHeaderValues(cur string) []string {
-	h := []string{"", "*", `"deadbeef"`, `"0"`, "abc", `""`}
+	h := []string{"", "*", `"deadbeef"`, `"0"`, "abc", `""`, `"a"b"`}
 	if cur != "" {
 		h = append(h, cur, `W/`+cur)
 	}
